@@ -64,6 +64,7 @@ func main() {
 		{"McpTables.v", genMcpTables},
 		{"Consts.v", genConsts},
 		{"PgTie.v", genPgTie},
+		{"AdminProxy.v", genAdminProxy},
 	}
 	failed := false
 	for _, g := range gens {
